@@ -23,6 +23,15 @@ different hostile classes.  For every ray:
   oracle_xcheck: the analytic intervals are cross-checked by >= 200x finer independent midpoint sampling (a
                 disagreement is a harness error => INCONCLUSIVE, never a verdict on the code).
 
+  mutated_*   : "mutate after construction" cases (25 %): the object is built, optionally traced, then changed through the
+                public setters only (step down by 1e-1..1e-3 / up, via rt.step or integrator.step; min_samples; a new
+                integrator object on material.integrator; mask / voxel_map / mask=None; transform; parent re-attached /
+                new World / intermediate Node), several times and back again.  After (most) mutations four rays - one
+                ordinary, one hostile, two short-chord rays (edge/corner clips, tangential grazes, rim clips with chords
+                log-uniform in 1e-4..10 x the CURRENT step) - are judged against the exact chords for the CURRENT
+                settings (dt and the 0.1*step skip rule from the current step) and against a freshly constructed object
+                with the current settings (keys mutated:<mutations since the last judged trace>:...).
+
 Rays tangent to the inner bounding cylinder within raysect's floating-point resolution are judged under their own keys
 (TANGENT_KEY / AXIS_HOLE_KEY, see known findings): raysect's Cylinder.hit cannot tell entering from leaving there.
 """
@@ -38,7 +47,10 @@ RULE = ("random grids (1..12 cells per axis, cell sizes 0.01..5 with aspect rati
         "(density 0.05..1) and voxel maps with -1, merged and unused sources set by constructor or setter; per grid ~8 "
         "rays drawn from the classes random, inside, axis-parallel (incl. exactly on faces / edges / primitive "
         "surface), through lattice corners (+-ulp), tangential to r = r_k, through the axis, inside an azimuthal "
-        "plane, grazing the primitive, missing.  A case is non-trivial when at least one ray crossed >= 1 cell with "
+        "plane, grazing the primitive, missing.  A quarter of the cases instead mutate one object through its public setters "
+        "(step, min_samples, integrator, mask, voxel_map, transform, parent; 2..6 mutations incl. reverts) and judge 4 rays "
+        "per mutation (incl. two short-chord clips/grazes, chord 1e-4..10 current steps) against the exact chords for the "
+        "current settings and against a freshly built object.  A case is non-trivial when at least one ray crossed >= 1 cell with "
         "an exact chord longer than the integration step and was judged per cell; distinct = distinct case descriptors")
 LEVEL_TEXT = ("Exploration by runtime monitoring with a reference model: every generated ray is traced through the real "
               "RayTransferBox/Cylinder in a real raysect World and each matrix entry is compared with the exact chord "
@@ -65,7 +77,8 @@ QUICK = dict(cases=320, workers=2, timecap=45)
 THOROUGH = dict(cases=40000, workers=16, timecap=600)
 REQUIRED = {"cell": 20000, "total": 500, "additivity": 5000, "mask": 5000, "active_total": 500, "bins": 400,
             "periodicity": 5000, "periodicity_chords": 5000, "oracle_xcheck": 300, "miss": 50, "layout": 20,
-            "pipeline": 1000, "pipeline_reuse": 300, "emission_function": 500}
+            "pipeline": 1000, "pipeline_reuse": 300, "emission_function": 500, "mutated_fresh": 2000,
+            "mutated_chords": 2000, "mutated_state": 300}
 
 DELTA0 = 2.0e-8
 TANGENT_KEY = "cyl:ray-tangent-to-inner-bounding-cylinder:chord-before-tangent-point-lost"        # radius_inner > 0
@@ -435,7 +448,186 @@ BOX_CLASSES = ["random", "random", "random", "inside", "axis", "corner", "graze"
 CYL_CLASSES = ["random", "random", "inside", "axis", "tangent", "thru_axis", "azim", "corner", "miss"]
 
 
+# ------------------------------------------------------------------------------------------------------------
+# "mutate after construction" cases
+# ------------------------------------------------------------------------------------------------------------
+
+MUTATE_FRACTION = 0.25
+
+
+def _short_ray_box(rng, g, ell):
+    """A ray clipping an edge (or, near its end, a corner) of the bounding Box with a chord of length ~ell."""
+    ell = float(min(ell, 0.45 * g.size.min()))
+    a = int(rng.integers(0, 3))                         # edge direction
+    b, c = [x for x in range(3) if x != a]
+    cb = [0.0, g.upper[b]][rng.integers(0, 2)]
+    cc = [0.0, g.upper[c]][rng.integers(0, 2)]
+    sb = 1.0 if cb == 0.0 else -1.0
+    sc = 1.0 if cc == 0.0 else -1.0
+    while True:
+        w = np.abs(rng.normal(size=3))
+        w[2] *= rng.choice([0.0, 0.3, 1.0])             # component along the edge
+        w /= np.linalg.norm(w)
+        if w[0] > 0.15 and w[1] > 0.15:
+            break
+    u, v, da = ell * w[0], ell * w[1], ell * w[2] * rng.choice([-1.0, 1.0])
+    if rng.random() < 0.3:                              # next to a corner of the box
+        a1 = [0.0, g.upper[a]][rng.integers(0, 2)]
+        a1 = a1 + (abs(da) + ell * rng.uniform(0.0, 2.0)) * (1.0 if a1 == 0.0 else -1.0)
+    else:
+        a1 = rng.uniform(0.1, 0.9) * g.upper[a]
+    a1 = float(min(max(a1, abs(da) + 1e-9), g.upper[a] - abs(da) - 1e-9)) if g.upper[a] > 2 * abs(da) + 2e-9 else 0.5 * g.upper[a]
+    p1 = np.zeros(3)
+    p2 = np.zeros(3)
+    p1[a], p1[b], p1[c] = a1, cb + sb * u, cc            # on the face c = cc
+    p2[a], p2[b], p2[c] = a1 + da, cb, cc + sc * v       # on the face b = cb
+    d = _unit(p2 - p1)
+    mid = 0.5 * (p1 + p2)
+    s = g.radius * rng.uniform(1.3, 3.0)
+    return mid - s * d, d
+
+
+def _short_ray_cyl(rng, g, ell):
+    """A ray grazing the outer surface tangentially or clipping the outer / inner rim, chord ~ell."""
+    ell = float(min(ell, 0.45 * min(g.h, g.ro)))
+    ph = rng.uniform(0, 2 * np.pi)
+    er = np.array([np.cos(ph), np.sin(ph), 0.0])
+    et = np.array([-np.sin(ph), np.cos(ph), 0.0])
+    ez = np.array([0.0, 0.0, 1.0])
+    v = rng.integers(0, 3 if g.ri > 0 else 2)
+    if v == 0:                                          # tangential graze of the outer surface
+        tau = rng.uniform(-0.4, 0.4) if rng.random() < 0.6 else 0.0
+        if abs(ell * np.sin(tau)) > 0.4 * g.h:
+            tau = 0.0
+        lh = ell * np.cos(tau)
+        bpar = np.sqrt(max(g.r_out ** 2 - (0.5 * lh) ** 2, 0.0))
+        zmid = rng.uniform(0.3, 0.7) * g.z_top
+        mid = bpar * er + zmid * ez
+        d = _unit(np.cos(tau) * et + np.sin(tau) * ez)
+    else:
+        top = rng.random() < 0.5
+        zc = g.z_top if top else 0.0
+        sz = -1.0 if top else 1.0
+        th = rng.uniform(0.2, 1.37)
+        u, w = ell * np.cos(th), ell * np.sin(th)
+        if v == 1:                                      # outer rim: cap point inside, side point below / above the rim
+            p1 = (g.r_out - u) * er + zc * ez
+            p2 = g.r_out * er + (zc + sz * w) * ez
+        else:                                           # inner rim
+            p1 = (g.r_in + u) * er + zc * ez
+            p2 = g.r_in * er + (zc + sz * w) * ez
+        if rng.random() < 0.4:                          # out of the meridional plane
+            p2 = p2 + et * rng.uniform(-0.5, 0.5) * ell
+            rr = np.hypot(p2[0], p2[1])
+            p2[:2] *= (g.r_out if v == 1 else g.r_in) / rr
+        mid = 0.5 * (p1 + p2)
+        d = _unit(p2 - p1) * rng.choice([-1.0, 1.0])
+    s = g.radius * rng.uniform(1.3, 3.0)
+    return mid - s * d, d
+
+
+def _mut_rays(rng, g, kind, cur_step):
+    """Rays judged after one mutation: one ordinary crossing ray, one hostile ray, two short-chord rays whose chord is
+    log-uniform between 1e-4 and 10 times the CURRENT integration step."""
+    fn = _ray_box if kind == "box" else _ray_cyl
+    hostile = (["axis", "corner", "graze"] if kind == "box" else ["axis", "tangent", "thru_axis", "corner"])
+    out = []
+    for cls in ("random", str(hostile[rng.integers(0, len(hostile))]), "short", "short"):
+        if cls == "short":
+            ell = cur_step * 10 ** rng.uniform(-4, 1)
+            o, d = (_short_ray_box if kind == "box" else _short_ray_cyl)(rng, g, ell)
+        else:
+            o, d = fn(rng, g, cls)
+        d = _unit(d)
+        out.append(dict(cls=cls, o=[float(x) for x in o], d=[float(x) for x in d]))
+    return out
+
+
+def _map_params(rng):
+    return dict(seed=int(rng.integers(0, 2 ** 31)), density=float(rng.uniform(0.05, 1.0)), merge=float(rng.uniform(0.1, 1.0)),
+                gaps=bool(rng.random() < 0.3), mask_density=float(rng.uniform(0.05, 1.0)))
+
+
+def _gen_mutate_case(rng):
+    while True:
+        gd = _gen_grid(rng)
+        n = [gd[k] for k in (("nx", "ny", "nz") if gd["kind"] == "box" else ("nr", "nphi", "nz"))]
+        if int(np.prod(n)) <= 400:                       # many fresh objects per case: keep the maps small
+            break
+    g = G.make_grid(gd)
+    tr0 = _gen_transform(rng, False)
+    r = rng.random()
+    step0 = None if r < 0.5 else float(g.min_cell * 10 ** rng.uniform(np.log10(0.05), np.log10(2.0)))
+    ms0 = 2 if rng.random() < 0.7 else int(rng.integers(3, 7))
+    cur = step0 if step0 is not None else 0.1 * g.min_cell
+    smin = g.radius / 1.0e5                              # keeps the number of samples per ray <~ 4e5
+    smax = 3.0 * g.min_cell
+    map0 = None
+    r = rng.random()
+    if r < 0.2:
+        map0 = dict(kind="mask", **_map_params(rng))
+    elif r < 0.4:
+        map0 = dict(kind="voxel_map", **_map_params(rng))
+    ops = []
+    hist = dict(step=[cur], transform=[tr0])
+    nops = int(rng.integers(2, 7))
+    kinds = ["step_down", "step_up", "mask", "voxel_map", "all_active", "transform", "parent", "integrator", "min_samples", "revert"]
+    pk = np.array([0.28, 0.12, 0.1, 0.1, 0.05, 0.1, 0.08, 0.08, 0.04, 0.05])
+    for i in range(nops):
+        kind = str(rng.choice(kinds, p=pk / pk.sum()))
+        if i == 0 and rng.random() < 0.5:
+            kind = "step_down"
+        if kind == "step_down":
+            v = max(cur * 10 ** rng.uniform(-3, -1), smin)
+            op = dict(op="step", value=float(v), via=str(rng.choice(["rt", "integrator"])))
+        elif kind == "step_up":
+            v = min(cur * 10 ** rng.uniform(0.3, 2.5), smax)
+            op = dict(op="step", value=float(v), via=str(rng.choice(["rt", "integrator"])))
+        elif kind == "revert":
+            if rng.random() < 0.6 or len(hist["transform"]) < 2:
+                op = dict(op="step", value=float(hist["step"][rng.integers(0, len(hist["step"]))]), via="rt")
+            else:
+                op = dict(op="transform", tr=hist["transform"][rng.integers(0, len(hist["transform"]))])
+        elif kind == "mask":
+            op = dict(op="mask", **_map_params(rng))
+        elif kind == "all_active":
+            op = dict(op="mask", none=True)
+        elif kind == "voxel_map":
+            op = dict(op="voxel_map", **_map_params(rng))
+        elif kind == "transform":
+            op = dict(op="transform", tr=_gen_transform(rng, False))
+        elif kind == "parent":
+            op = dict(op="parent", how=str(rng.choice(["reattach", "new_world", "node"])), tr=_gen_transform(rng, False))
+        elif kind == "integrator":
+            v = min(max(cur * 10 ** rng.uniform(-2, 1), smin), smax)
+            op = dict(op="integrator", step=float(v), min_samples=int(rng.integers(2, 6)))
+        else:
+            op = dict(op="min_samples", value=int(rng.integers(2, 8)))
+        if op["op"] == "step" and op["value"] == cur:
+            op["value"] = float(min(cur * 2.0, smax)) if cur * 2.0 <= smax else float(cur * 0.5)
+        if op["op"] == "step":
+            cur = op["value"]
+            hist["step"].append(cur)
+        elif op["op"] == "integrator":
+            cur = op["step"]
+            hist["step"].append(cur)
+        elif op["op"] == "transform":
+            hist["transform"].append(op["tr"])
+        op["judge"] = bool(i == nops - 1 or rng.random() < 0.75)      # otherwise the next mutation follows without a trace
+        op["rays"] = _mut_rays(rng, g, gd["kind"], cur) if op["judge"] else []
+        ops.append(op)
+    warm = bool(rng.random() < 0.7)
+    return dict(mode="mutate", grid=gd, transform=tr0, step=step0, min_samples=ms0, map0=map0,
+                transform_path=str(rng.choice(["ctor", "setter"])), warmup=warm,
+                warm_rays=_mut_rays(rng, g, gd["kind"], step0 if step0 is not None else 0.1 * g.min_cell) if warm else [],
+                ops=ops)
+
+
 def gen_case(rng, tier):
+    # the decision uses an independent (jumped) stream so that ordinary cases are the same as without this class
+    r2 = np.random.Generator(rng.bit_generator.jumped())
+    if r2.random() < MUTATE_FRACTION:
+        return _gen_mutate_case(r2)
     gd = _gen_grid(rng)
     g = G.make_grid(gd)
     hostile = rng.random() < 0.35           # exact lattice rays only stay exact under trivial transforms
@@ -753,11 +945,208 @@ def _interval_check(ctx, monitor, key, what, got, lo, hi, tol, **detail):
     return True
 
 
+class _MutModel:
+    """What the object should now be, tracked from the public calls only."""
+    def __init__(self, case, g):
+        self.step = case["step"] if case["step"] is not None else 0.1 * g.min_cell
+        self.ms = case["min_samples"]
+        self.vmap = None                  # None = one source per cell
+        self.is_mask = None
+        self.M = matrix(case["transform"])
+        self.node = None                  # matrix of an intermediate parent node
+
+
+def _mut_map(params, shape, kind):
+    vmap, mask = build_maps(dict(map=params), shape)
+    if kind == "mask":
+        out = np.full(mask.size, -1, dtype=np.int64)
+        out[mask.ravel()] = np.arange(int(mask.sum()))
+        return out.reshape(shape), mask
+    return vmap, None
+
+
+def _fresh_scene(case, g, model):
+    """A brand-new object built in the canonical way (constructor arguments) with the model's current settings."""
+    from raysect.optical import World, AffineMatrix3D
+    from cherab.tools.raytransfer import RayTransferBox, RayTransferCylinder
+    gd = case["grid"]
+    sc = _Scene.__new__(_Scene)
+    sc.world = World()
+    Mw = model.M if model.node is None else model.node @ model.M
+    kw = dict(step=model.step, parent=sc.world, transform=AffineMatrix3D(Mw.tolist()))
+    if model.vmap is not None:
+        if model.is_mask is not None:
+            kw["mask"] = model.is_mask
+        else:
+            kw["voxel_map"] = model.vmap
+    if gd["kind"] == "box":
+        sc.rt = RayTransferBox(gd["xmax"], gd["ymax"], gd["zmax"], gd["nx"], gd["ny"], gd["nz"], **kw)
+    else:
+        sc.rt = RayTransferCylinder(gd["ro"], gd["h"], gd["nr"], gd["nz"], radius_inner=gd["ri"], n_polar=gd["nphi"],
+                                    period=360.0 / gd["k"], **kw)
+    if model.ms != 2:
+        sc.rt.material.integrator.min_samples = model.ms
+    return sc
+
+
+def _mut_judge(ctx, case, g, sc, model, rays, what, compare_fresh=True, history=()):
+    gd = case["grid"]
+    ncell = g.ncell
+    Mw = model.M if model.node is None else model.node @ model.M
+    R, T = Mw[:3, :3], Mw[:3, 3]
+    coord_scale = float(np.abs(T).max() + 4 * g.radius + 1.0)
+    delta = DELTA0 + 1e-11 * coord_scale
+    atol = 1e-9 + 1e-12 * coord_scale
+    vflat = np.arange(ncell) if model.vmap is None else model.vmap.ravel()
+    active = vflat > -1
+    nb = int(vflat.max()) + 1
+    # ---- state read back through the public properties --------------------------------------------------------
+    ok = ctx.check(int(sc.rt.bins) == nb, "mutated:%s:bins" % what, "bins after the mutation != max(current map) + 1", monitor="mutated_state",
+                   bins=int(sc.rt.bins), want=nb)
+    ok &= ctx.check(np.array_equal(np.asarray(sc.rt.voxel_map).ravel(), vflat), "mutated:%s:voxel-map-readback" % what,
+                    "voxel_map read back after the mutation is not the current map", monitor="mutated_state")
+    ctx.check(abs(float(sc.rt.step) - model.step) <= 1e-15 * model.step and int(sc.rt.material.integrator.min_samples) == model.ms,
+              "mutated:%s:step-readback" % what, "step / min_samples read back after the mutation are not the current values",
+              monitor="mutated_state", got=float(sc.rt.step), want=model.step)
+    if not ok:
+        return False
+    fresh = _fresh_scene(case, g, model) if compare_fresh else None
+    if fresh is not None and int(fresh.rt.bins) != nb:
+        fresh = None                       # (construction itself is judged by the ordinary cases)
+    clean = True
+    for i, r in enumerate(rays):
+        ol = np.array(r["o"], dtype=float)
+        dl = _unit(r["d"])
+        ow = R @ ol + T
+        dw = _unit(R @ dl)
+        o2 = R.T @ (ow - T)
+        d2 = _unit(R.T @ dw)
+        an = G.analyse(g, o2, d2, model.step, model.ms, delta)
+        ctx.cls("mut-ray:" + r["cls"])
+        E = sc.trace(ow, dw)
+        nsamp = (an.total_hi / an.dt) if an.dt > 0 else 0.0
+        sum_atol = 1e-13 + 4.4e-15 * (nsamp + 100.0) * an.total_hi
+        # ---- against a freshly constructed object with the current settings ---------------------------------
+        if fresh is not None:
+            F = fresh.trace(ow, dw)
+            clean &= ctx.close(E, F, "mutated:%s:entries-differ-from-fresh-object" % what,
+                               "entries of the object after public-setter mutations differ from those of a freshly constructed object "
+                               "with the same final settings", atol=sum_atol, monitor="mutated_fresh", ray=i, ray_cls=r["cls"],
+                               step=model.step, chord=an.total_hi, history=list(history))
+        # ---- against the exact chords for the CURRENT settings -------------------------------------------------
+        key = "mutated:%s:entries-violate-exact-chords" % what
+        if an.tangent_inner:
+            key = TANGENT_KEY if gd["ri"] > 0 else AXIS_HOLE_KEY
+        if an.total_hi == 0.0:
+            clean &= ctx.check(bool(np.all(E == 0.0)), "mutated:%s:miss-nonzero" % what, "a ray that misses the object has non-zero entries",
+                               monitor="mutated_chords", ray_cls=r["cls"])
+            continue
+        K = np.maximum(2, an.runs)
+        lo_s = np.bincount(vflat[active], weights=an.lo[active], minlength=nb)
+        hi_s = np.bincount(vflat[active], weights=an.hi[active], minlength=nb)
+        touched = an.hi > 0
+        K_s = np.bincount(vflat[active & touched], weights=K[active & touched], minlength=nb)
+        clean &= _interval_check(ctx, "mutated_chords", key,
+                                 "after public-setter mutations an entry differs from the exact chord length of its source's cells by more "
+                                 "than the summed per-cell allowance (max(2, visits) integration steps of the CURRENT step per cell)",
+                                 E, lo_s, hi_s, K_s * an.dt + atol, ray=i, ray_cls=r["cls"], dt=an.dt, step=model.step,
+                                 segments=an.segments, history=list(history))
+        lo_a, hi_a, runs = G.active_bounds(an, active)
+        clean &= _interval_check(ctx, "mutated_chords", key if an.tangent_inner else "mutated:%s:active-total" % what,
+                                 "after public-setter mutations the entries do not sum to the chord length inside the active cells",
+                                 np.array([E.sum()]), lo_a, hi_a, (runs + 1) * an.dt + atol, ray=i, ray_cls=r["cls"], runs=runs, dt=an.dt,
+                                 step=model.step, segments=an.segments)
+        if (an.lo > an.dt).any() and an.dt > 0:
+            ctx.nontrivial()
+    return clean
+
+
+def _run_mutate(case, ctx):
+    from raysect.optical import World, Node, AffineMatrix3D
+    from cherab.tools.raytransfer.emitters import CartesianRayTransferIntegrator, CylindricalRayTransferIntegrator
+    gd = case["grid"]
+    g = G.make_grid(gd)
+    ctx.cls("mutate:" + _geom_name(gd))
+    model = _MutModel(case, g)
+    vm0 = mk0 = None
+    if case["map0"] is not None:
+        vm0, mk0 = _mut_map({k: v for k, v in case["map0"].items() if k != "kind"}, g.shape, case["map0"]["kind"])
+        model.vmap, model.is_mask = vm0, mk0
+    sc = _Scene(case, g, model.M, voxel_map=vm0 if mk0 is None else None, mask=mk0)
+    if case["warmup"]:
+        _mut_judge(ctx, case, g, sc, model, case["warm_rays"], "construction", compare_fresh=False)
+    pending = []
+    history = []
+    for op in case["ops"]:
+        k = op["op"]
+        if k == "step":
+            label = "step-down" if op["value"] < model.step else "step-up"
+            if op["via"] == "rt":
+                sc.rt.step = op["value"]
+            else:
+                sc.rt.material.integrator.step = op["value"]
+            model.step = op["value"]
+        elif k == "min_samples":
+            label = "min_samples"
+            sc.rt.material.integrator.min_samples = op["value"]
+            model.ms = op["value"]
+        elif k == "integrator":
+            label = "integrator"
+            cls = CartesianRayTransferIntegrator if gd["kind"] == "box" else CylindricalRayTransferIntegrator
+            sc.rt.material.integrator = cls(op["step"], op["min_samples"])
+            model.step, model.ms = op["step"], op["min_samples"]
+        elif k == "mask":
+            label = "mask"
+            if op.get("none"):
+                sc.rt.mask = None
+                model.vmap = model.is_mask = None
+            else:
+                vm, mk = _mut_map({x: op[x] for x in ("seed", "density", "merge", "gaps", "mask_density")}, g.shape, "mask")
+                sc.rt.mask = mk
+                model.vmap, model.is_mask = vm, mk
+        elif k == "voxel_map":
+            label = "voxel_map"
+            vm, _ = _mut_map({x: op[x] for x in ("seed", "density", "merge", "gaps", "mask_density")}, g.shape, "voxel_map")
+            sc.rt.voxel_map = vm
+            model.vmap, model.is_mask = vm, None
+        elif k == "transform":
+            label = "transform"
+            model.M = matrix(op["tr"])
+            sc.rt.transform = AffineMatrix3D(model.M.tolist())
+        elif k == "parent":
+            label = "parent-" + op["how"]
+            if op["how"] == "reattach":
+                sc.rt.parent = None
+                sc.rt.parent = sc.world
+                model.node = None
+            elif op["how"] == "new_world":
+                sc.world = World()
+                sc.rt.parent = sc.world
+                model.node = None
+            else:
+                model.node = matrix(op["tr"])
+                sc.rt.parent = Node(parent=sc.world, transform=AffineMatrix3D(model.node.tolist()))
+        else:
+            raise ValueError(k)
+        ctx.cls("mut:" + label)
+        pending.append(label)
+        history.append(label)
+        if op["judge"]:
+            what = "+".join(sorted(set(pending)))
+            clean = _mut_judge(ctx, case, g, sc, model, op["rays"], what, history=history)
+            pending = []
+            if not clean:
+                return                     # later checkpoints would only repeat the first divergence under other names
+
+
 def run_case(case, ctx):
     try:
-        _run_case(case, ctx)
+        if case.get("mode") == "mutate":
+            _run_mutate(case, ctx)
+        else:
+            _run_case(case, ctx)
     except _IndexOutOfRange as e:
-        ctx.viol("%s:integrator-index-out-of-range" % _geom_name(case["grid"]),
+        ctx.viol(("mutated:" if case.get("mode") == "mutate" else "") + "%s:integrator-index-out-of-range" % _geom_name(case["grid"]),
                  "IndexError inside the ray-transfer integrator while tracing an in-domain ray: a sample was assigned a cell / "
                  "source index outside the grid or the spectral array (%s)" % str(e)[:120])
 
